@@ -158,11 +158,6 @@ func (c *EvmClient) getNonce(ctx context.Context) (uint64, error) {
 		return 0, fmt.Errorf("failed to get nonce: %w", err)
 	}
 
-	// first nonce
-	if accountNonce == 0 {
-		return 0, nil
-	}
-
 	if c.nonce == 0 {
 		c.nonce = accountNonce
 	}
